@@ -24,6 +24,8 @@ def gen_comment(rnd):
             extra = "".join(chr(rnd.choice([b for b in range(1, 0x20) if b not in (10, 13)] + [0x7f])) for _ in range(rnd.randrange(1, 4)))
         pos = rnd.randrange(len(body) + 1)
         body = body[:pos] + extra + body[pos:]
+    if rnd.random() < 0.04:
+        body = body + " " + "long comment " * rnd.choice([8, 20, 80, 400])  # 100 .. 5000 characters
     return rnd.choice([";", " ;", "\t;", " ; ", ";;"]) + body
 
 
@@ -39,8 +41,11 @@ def rw_case(t, rnd):
 
 
 def blanks(rnd, lo, hi):
-    """lo..hi-1 blanks: spaces, or (one time in four) a mix of spaces and tabs"""
+    """lo..hi-1 blanks: spaces, or (one time in four) a mix of spaces and tabs; one time in twenty a LOT of them (the raw line may be
+    far longer than 100 characters while its filtered length is unchanged)"""
     n = rnd.randrange(lo, hi)
+    if rnd.random() < 0.05:
+        n = rnd.choice([4, 9, 17, 40, 120]) if hi > 1 else n
     if rnd.random() < 0.75:
         return " " * n
     return "".join(rnd.choice(" \t") for _ in range(n))
@@ -57,7 +62,7 @@ def rw_space(t, rnd):
 
 
 def rw_frame(t, rnd):
-    lead = rnd.choice(["", " ", "  ", "\t", "\t\t", " \t "])
+    lead = rnd.choice(["", " ", "  ", "\t", "\t\t", " \t "]) if rnd.random() < 0.95 else rnd.choice([" " * 40, "\t" * 50, " \t" * 70])
     trail = gen_comment(rnd) if rnd.random() < 0.5 else rnd.choice(COMMENTS + ["", "  ", "\t"])
     return lead + t + trail
 
